@@ -91,7 +91,9 @@ func (c03) Gen(seed uint64, tier string) Case {
 		if r.Bool(0.15) {
 			h.Owner = []string{"", "A"}[r.Intn(2)]
 		}
-		switch r.Pick([]int{4, 4, 3}) {
+		switch r.Pick([]int{4, 4, 3, 3}) {
+		case 3:
+			h.Kind = "teardown"
 		case 0:
 			h.Kind = "tad"
 		case 1:
@@ -360,6 +362,7 @@ type helperRec struct {
 	ResultTomb  bool
 	// ctxtd
 	TdCtx          context.Context
+	Rmw            *rmwRec
 	CancelSeenAt   int // log length at which a commit-time sample first saw the context cancelled (-1 = never)
 	CancelledAtEnd bool
 }
@@ -428,6 +431,14 @@ func (c03) Run(t *testing.T, cs Case, trace bool) *Outcome {
 					}
 				case "ctxtd":
 					h.TdCtx, h.Err = st.ContextWithTeardown(ctx, ptr)
+				case "teardown":
+					h.Rmw = &rmwRec{Task: h.Name, Call: RMWCall{Kind: "teardown", API: "state", ID: hc.ID, Owner: hc.Owner}, Invoke: len(w.Log)}
+					execRMW(ctx, st, h.Rmw.Call, h.Name, h.Rmw)
+					h.Rmw.Ret = len(w.Log)
+					h.Err = h.Rmw.Err
+					if h.Err != nil {
+						h.Rmw.Class, _ = classify(h.Err, "ns1", TypeA)
+					}
 				}
 				h.Ret = len(w.Log)
 				h.Returned = true
@@ -499,6 +510,16 @@ func checkHelper(h *helperRec, log []Commit, preLen int, out *Outcome) {
 	}
 	cur := states[len(states)-1]
 	switch h.Call.Kind {
+	case "teardown":
+		if !h.Returned {
+			fail("teardown-blocked", "teardown-blocked", "Teardown did not return")
+			return
+		}
+		checkRMW("C03", h.Rmw, log, out)
+		out.probe("teardown-checked")
+		if h.Ret > h.Invoke+1 {
+			out.Nontrivial = true
+		}
 	case "tad":
 		if h.Returned {
 			if h.Err == nil {
